@@ -51,6 +51,7 @@ type routePlan struct {
 	Tracing    bool        `json:"tracing"` // run with trace logging enabled (discarding logger)
 	OptionsAll bool        `json:"optionsAll"`
 	Conc       int         `json:"conc"` // > 0: additionally send every request of a table from that many goroutines at once
+	Late       bool        `json:"late"` // a route is added after a first round of requests (one spelling each) was served
 	Universe   []string    `json:"universe"`
 }
 
@@ -135,6 +136,11 @@ var withFilter bool
 // dynamicTables: WebServices are built with dynamic routes enabled (routes change after registration)
 var dynamicTables bool
 
+// holdBack: the last route of the first service is not registered when the container is built but
+// later, after some requests were served (lateAdders[container] registers it)
+var holdBack bool
+var lateAdders = map[*restful.Container]func(){}
+
 func buildContainer(t tableCase, router string, order [][2]int, cell **obsCell) (c *restful.Container, addPanic string) {
 	defer func() {
 		if pv := recover(); pv != nil {
@@ -214,6 +220,11 @@ func buildContainer(t tableCase, router string, order [][2]int, cell **obsCell) 
 		}
 		if len(rs.Noct) > 0 {
 			rb.AllowedMethodsWithoutContentType(rs.Noct)
+		}
+		if holdBack && wi == 0 && ri == len(t.Services[0].Routes)-1 && len(t.Services[0].Routes) >= 2 {
+			wsLate, rbLate := ws, rb
+			lateAdders[c] = func() { wsLate.Route(rbLate) }
+			continue
 		}
 		ws.Route(rb)
 	}
@@ -387,6 +398,7 @@ func runRoute(planPath, outPath string, seed int64) {
 			orders = append(orders, registrationOrder(t, r, false))
 		}
 		addPanic := ""
+		holdBack, dynamicTables = p.Late, p.Late
 		for _, router := range routers {
 			for pi, ord := range orders {
 				c, ap := buildContainer(t, router, ord, &cell)
@@ -395,6 +407,22 @@ func runRoute(planPath, outPath string, seed int64) {
 					continue
 				}
 				variants = append(variants, builtVariant{router, pi, c})
+			}
+		}
+		holdBack, dynamicTables = false, false
+		if p.Late {
+			// one spelling of every request (alternating) is served by the incomplete table, then the held
+			// back route is registered; everything recorded below is answered by the complete table
+			for _, v := range variants {
+				for i, rq := range t.Reqs {
+					if hr, err := rq.httpRequest(i%2 == 1 && !strings.HasSuffix(rq.Path, "/")); err == nil {
+						observe(v.c, "D", hr, &cell)
+					}
+				}
+				if add, ok := lateAdders[v.c]; ok {
+					add()
+					delete(lateAdders, v.c)
+				}
 			}
 		}
 		if addPanic != "" {
